@@ -106,12 +106,15 @@ def oracle(ctx, kind, p):
         triples = [(rng.choice(sym[:5]), rng.choice(roles), rng.choice(sym)) for _ in range(n)]
         ep = {}
         srcs = sorted({s for s, _, _ in triples})
+        from penman.surface import Alignment, RoleAlignment
         for t in triples:
             if rng.random() < 0.3:
-                ep[t] = [rng.choice([POP, Push(rng.choice(srcs + ['zz'])), Pop()])
+                ep[t] = [rng.choice([POP, Push(rng.choice(srcs + ['zz'])), Pop(), Alignment((1, 2), prefix='e.'),
+                                     RoleAlignment((3,))])
                          for _ in range(rng.randrange(1, 3))]
         g = Graph(triples, top=rng.choice([None, None, 'a', 'b', 'zz']), epidata=ep)
-        top = rng.choice([None, None, 'a', 'c', 'zz'])
+        # requested tops include constants that occur as attribute values
+        top = rng.choice([None, None, 'a', 'c', 'zz', 'x', '"s"', 0])
         ctx.current = _graphs.gpayload(g, 'default', top=top, arbitrary=True)
         check_list(ctx, g, top, ctx.current, n=len(triples) if p['i'] % 5 == 0 else None)
         ctx.case(ctx.current, n > 0)
